@@ -113,3 +113,53 @@ example : issueAt [] .cnExponent " 2147483648 ".toList = true ∧ issueAt [] .cn
 example : issueAt ["kilo".toList] .pfx "kilo".toList = false ∧ issueAt ["kilo".toList] .pfx "kil".toList = true := by decide
 
 end Cellml.Props.C16
+
+namespace Cellml.Props.C16
+open Cellml.Num
+
+/-! ### the two grammars against each other ("an optional minus sign" vs "an optional sign") -/
+
+/-- C16: "an optional *minus* sign" — no text that starts with `+` is a CellML real, although it may
+    be a CellML integer (`+007`). -/
+theorem C16_real_no_plus (s : List Char) : ¬ SpecReal ('+' :: s) := by
+  rintro (h | ⟨sig, e, ex, _, hs, hsig, _⟩)
+  · exact (basicReal_head _ h).2 rfl
+  · obtain ⟨hne, hp⟩ := basicReal_head _ hsig
+    cases sig with
+    | nil => exact hne rfl
+    | cons x xs =>
+      simp at hs
+      exact hp (by simp [← hs.1])
+
+theorem C16_real_no_plus_code (s : List Char) : cellmlReal ('+' :: s) = false := by
+  cases h : cellmlReal ('+' :: s) with
+  | false => rfl
+  | true => exact absurd ((cellmlReal_iff _).mp h) (C16_real_no_plus s)
+
+/-- every CellML integer without a `+` sign is also a CellML real (reset orders, prefixes and
+    exponents written as integers are read the same way where a real is expected). -/
+theorem C16_int_is_real (s : List Char) (h : SpecInt s) (hp : s.head? ≠ some '+') : SpecReal s := by
+  obtain ⟨sign, ds, hs, rfl, hne, hall⟩ := h
+  have hm : SpecMantissa ds := by
+    refine ⟨fun c hc => Or.inl (hall c hc), ?_, ?_⟩
+    · have : ds.count '.' = 0 := by
+        rw [List.count_eq_zero]
+        intro hc
+        exact absurd (hall '.' hc) (by decide)
+      omega
+    · cases ds with
+      | nil => exact absurd rfl hne
+      | cons x xs => exact ⟨x, by simp, hall x (by simp)⟩
+  rcases hs with rfl | rfl | rfl
+  · exact Or.inl ⟨[], ds, Or.inl rfl, rfl, hm⟩
+  · exact Or.inl ⟨['-'], ds, Or.inr rfl, rfl, hm⟩
+  · exact absurd (by simp) hp
+
+theorem C16_int_is_real_code (s : List Char) (h : cellmlInt s = true) (hp : s.head? ≠ some '+') :
+    cellmlReal s = true :=
+  (cellmlReal_iff s).mpr (C16_int_is_real s ((cellmlInt_iff s).mp h) hp)
+
+example : SpecInt "+007".toList ∧ ¬ SpecReal "+007".toList :=
+  ⟨(cellmlInt_iff _).mp (by decide), C16_real_no_plus _⟩
+
+end Cellml.Props.C16
